@@ -47,3 +47,9 @@ MUTANTS += [
        "                    str(part.partname.idx)\n                    for part in self.iter_parts()\n                    if part.partname.startswith(\"/ppt/media/media\")")],
      "R6.2 Package.next_media_partname:order"),
 ]
+
+MUTANTS += [
+    ("partname-scan-short", "next_partname scans one candidate too few",
+     [("src/pptx/opc/package.py", "        for n in range(len(partnames) + 1, 0, -1):", "        for n in range(len(partnames), 0, -1):")],
+     "R6.2 OpcPackage.next_partname:exhaustion"),
+]
